@@ -4,7 +4,11 @@ package props
 //
 // Inputs (alpha ∈ DNA | RNA | DNAgapped; byte strings in hex)
 //   ix <alpha> <k> <seq> <probes> <texts>   New, KmerFrequencies, Build, KmerIndex, StringKmerIndex,
-//                                           KmerPositions(probes…), KmerPositionsString(texts…), Check
+//                                           KmerPositions(probes…), KmerPositionsString(texts…), Check;
+//                                           then the caller uses its answers as its own (every entry of
+//                                           every returned slice incremented, one element appended) and
+//                                           asks all four accessors again: ix2 sx2 pr2 ps2
+//                                           ("same" = identical to the first answer)
 //   fa <alpha> <k> <seq>                    ForEachKmerOf over every sub-range 0 ≤ start,end ≤ len+1
 //   fe <alpha> <k> <seq> <start> <end>      ForEachKmerOf over one sub-range
 //   km <alpha> <k> <w>                      Format / KmerOf∘Format / GCof / ComplementOf (package and method)
@@ -148,6 +152,7 @@ func c10Exec(input string) string {
 			out = append(out, "f="+orDash(parts, ","))
 		}
 		ki.Build()
+		var given [][]int // every positions slice handed to the caller
 		im, iok := ki.KmerIndex()
 		if !iok {
 			out = append(out, "ix=none")
@@ -160,6 +165,7 @@ func c10Exec(input string) string {
 			parts := make([]string, len(keys))
 			for i, w := range keys {
 				parts[i] = strconv.Itoa(w) + ":" + dots(im[kmerindex.Kmer(w)])
+				given = append(given, im[kmerindex.Kmer(w)])
 			}
 			out = append(out, "ix="+orDash(parts, ","))
 		}
@@ -175,6 +181,7 @@ func c10Exec(input string) string {
 			parts := make([]string, len(keys))
 			for i, w := range keys {
 				parts[i] = hx.Hex([]byte(w)) + ":" + dots(sm[w])
+				given = append(given, sm[w])
 			}
 			out = append(out, "sx="+orDash(parts, ","))
 		}
@@ -185,6 +192,7 @@ func c10Exec(input string) string {
 				pr = append(pr, c10ErrKind(err))
 			} else {
 				pr = append(pr, dots(p))
+				given = append(given, p)
 			}
 		}
 		out = append(out, "pr="+orDash(pr, ","))
@@ -196,12 +204,82 @@ func c10Exec(input string) string {
 					ps = append(ps, c10ErrKind(err))
 				} else {
 					ps = append(ps, dots(p))
+					given = append(given, p)
 				}
 			}
 		}
 		out = append(out, "ps="+orDash(ps, ","))
 		ok, found := ki.Check()
 		out = append(out, "chk="+hx.B(ok)+":"+strconv.Itoa(found))
+		// second pass: the caller treats every answer as its own slice (shifts the coordinates in
+		// place, appends to it), then asks every question again through every accessor
+		for _, p := range given {
+			for i := range p {
+				p[i]++
+			}
+			p = append(p, -7)
+			_ = p
+		}
+		first := map[string]string{}
+		for _, t := range out {
+			if i := strings.IndexByte(t, '='); i > 0 {
+				first[t[:i]] = t[i+1:]
+			}
+		}
+		again := func(name, v string) {
+			if first[name] == v {
+				v = "same"
+			}
+			out = append(out, name+"2="+v)
+		}
+		if im2, ok2 := ki.KmerIndex(); !ok2 {
+			again("ix", "none")
+		} else {
+			keys := make([]int, 0, len(im2))
+			for w := range im2 {
+				keys = append(keys, int(w))
+			}
+			sort.Ints(keys)
+			parts := make([]string, len(keys))
+			for i, w := range keys {
+				parts[i] = strconv.Itoa(w) + ":" + dots(im2[kmerindex.Kmer(w)])
+			}
+			again("ix", orDash(parts, ","))
+		}
+		if sm2, ok2 := ki.StringKmerIndex(); !ok2 {
+			again("sx", "none")
+		} else {
+			keys := make([]string, 0, len(sm2))
+			for w := range sm2 {
+				keys = append(keys, w)
+			}
+			sort.Strings(keys)
+			parts := make([]string, len(keys))
+			for i, w := range keys {
+				parts[i] = hx.Hex([]byte(w)) + ":" + dots(sm2[w])
+			}
+			again("sx", orDash(parts, ","))
+		}
+		var pr2 []string
+		for _, w := range hx.ParseInts(f[4]) {
+			if p, err := ki.KmerPositions(kmerindex.Kmer(w)); err != nil {
+				pr2 = append(pr2, c10ErrKind(err))
+			} else {
+				pr2 = append(pr2, dots(p))
+			}
+		}
+		again("pr", orDash(pr2, ","))
+		var ps2 []string
+		if f[5] != "-" {
+			for _, t := range strings.Split(f[5], ",") {
+				if p, err := ki.KmerPositionsString(string(hx.Unhex(t))); err != nil {
+					ps2 = append(ps2, c10ErrKind(err))
+				} else {
+					ps2 = append(ps2, dots(p))
+				}
+			}
+		}
+		again("ps", orDash(ps2, ","))
 		return "ok " + strings.Join(out, " ")
 	case "fa", "fe":
 		ki, err := c10Dummy(a, k)
